@@ -46,6 +46,15 @@ static std::vector<CfgT> & cfgs()
     for (auto & c : CFGS_FIXED) v.push_back(c);
     names = catalog::background_published();
     for (auto & n : names) { bool dup = false; for (auto & c : CFGS_FIXED) if (n == c.name) dup = true; if (!dup) v.push_back({"bkg", n.c_str(), 0, 0, 0, 0}); }
+    // two configurations for every legacy double-beta mode (different isotopes): state that a mode's spectrum helpers share between live
+    // instances only shows when two instances of the SAME mode exist in one process
+    static const CfgT twice[] = {{"dbd", "Se82", 0, 1, 0, 0}, {"dbd", "Mo100", 0, 2, 0, 0}, {"dbd", "Mo100", 1, 3, 0, 0}, {"dbd", "Xe136", 0, 4, 0, 0}, {"dbd", "Mo100", 0, 5, 0, 0}, {"dbd", "Se82", 0, 6, 0, 0},
+      {"dbd", "Se82", 1, 7, 0, 0}, {"dbd", "Se82", 1, 8, 0, 0}, {"dbd", "Ru96", 0, 9, 0, 0}, {"dbd", "Cd106", 0, 10, 0, 0}, {"dbd", "Cd106", 0, 11, 0, 0}, {"dbd", "Cd106", 0, 12, 0, 0}, {"dbd", "Mo100", 0, 13, 0, 0},
+      {"dbd", "Mo100", 0, 14, 0, 0}, {"dbd", "Mo100", 0, 15, 0, 0}, {"dbd", "Mo100", 1, 16, 0, 0}, {"dbd", "Mo100", 0, 17, 0, 0}, {"dbd", "Se82", 0, 18, 0, 0}, {"dbd", "Mo100", 0, 19, 0, 0}, {"dbd", "Zr96", 0, 20, 0, 0},
+      {"dbd", "Xe136", 0, 5, 0, 0}, {"dbd", "Cd116", 0, 6, 0, 0}, {"dbd", "Nd150", 0, 13, 0, 0}, {"dbd", "Ca48", 0, 14, 0, 0}, {"dbd", "Zr96", 0, 15, 0, 0}, {"dbd", "Te130", 1, 8, 0, 0}, {"dbd", "Ce136", 0, 11, 0, 0},
+      {"dbd", "Ru96", 0, 10, 0, 0}, {"dbd", "Mo100", 0, 4, 0.5, 2.0}, {"dbd", "Xe136", 1, 16, 0.2, 1.0}, {"dbd", "Cd116", 0, 19, 0, 0}, {"dbd", "Nd150", 0, 2, 0, 0}, {"dbd", "Nd150", 0, 17, 0, 0}, {"dbd", "Mo100", 0, 18, 0, 0},
+      {"dbd", "Mo100", 2, 1, 0, 0}, {"dbd", "Cd106", 0, 9, 0, 0}, {"dbd", "Xe136", 0, 20, 0, 0}};
+    for (auto & c : twice) v.push_back(c);
     // the same decays with a momentum-direction-lock operation registered, in several variants (different species, cones, apertures):
     // state kept by an operation across instances is history, too
     static const int base[] = {0, 1, 2, 3, 5, 8, 11, 13, 15}; int k = 0;
@@ -125,7 +134,7 @@ static void shot_tape(Tape & t, int cfg, uint32_t tseed)
 // process whose library state has never seen another configuration, and pipes the event back.  (An in-process "fresh instance"
 // oracle would share function-local statics and caches of the library with the history under test.)
 struct OracleEvent { std::vector<double> v; std::string label; size_t used = 0; bool ok = true; };
-static int g_req_fd = -1, g_rsp_fd = -1; static pid_t g_server = -1;
+static int g_req_fd = -1, g_rsp_fd = -1; static pid_t g_server = -1; static int g_oracle_batch = 0;
 static void compute_event(int cfg, uint32_t iseed, uint32_t tseed, OracleEvent & o)
 {
   try {
@@ -145,9 +154,51 @@ static void start_oracle_server()
     close(rq[1]); close(rs[0]);
     std::map<std::tuple<uint32_t, uint32_t, uint32_t>, std::string> memo; // raw responses (the server itself never calls the library)
     while (true) {
-      uint32_t req[3]; if (!rd(rq[0], req, sizeof req)) _exit(0);
+      uint32_t req[4]; if (!rd(rq[0], req, sizeof req)) _exit(0);   // configuration, init tape, shot tape, batch flag
       auto key = std::make_tuple(req[0], req[1], req[2]); auto hit = memo.find(key);
       if (hit != memo.end()) { wr(rs[1], hit->second.data(), hit->second.size()); continue; }
+      if (req[2] < 60 && req[3]) {
+        // (marathon histories use every shot tape of a few (configuration, init tape) pairs; short histories use a few tapes of many pairs)
+        // one INITIALISER child per (configuration, init tape): it initialises a fresh generator once and forks one grandchild per shot tape
+        // 0..59, so that every event is still the FIRST shot of a process that has done nothing but this initialisation - and the cost of
+        // the initialisation (quadratures of the double-beta modes) is paid once instead of 60 times
+        int bp[2]; if (pipe(bp)) _exit(4);
+        pid_t ini = fork();
+        if (ini == 0) {
+          close(bp[0]);
+          std::unique_ptr<G> f; bool ok = true;
+          try { f.reset(new G); configure(*f, CFGS[(int)req[0]]); Tape it; it.seed = req[1]; TapeRandom r0(it, 0, 200000); f->initialize(r0); } catch (std::exception &) { ok = false; }
+          for (uint32_t ts = 0; ts < 60; ts++) {
+            int gp[2]; if (pipe(gp)) _exit(4);
+            pid_t g = fork();
+            if (g == 0) {
+              close(gp[0]); OracleEvent o;
+              if (!ok) o.ok = false;
+              else try {
+                bxdecay0::event e; Tape t; shot_tape(t, (int)req[0], ts); TapeRandom r(t, 0, 200000); f->shoot(r, e);
+                o.label = e.get_generator(); o.used = r.pos; o.v.push_back(e.get_time());
+                for (auto & p : e.get_particles()) { o.v.push_back((double)p.get_code()); o.v.push_back(p.get_time()); o.v.push_back(p.get_px()); o.v.push_back(p.get_py()); o.v.push_back(p.get_pz()); }
+              } catch (std::exception &) { o.ok = false; }
+              uint64_t hdr[4] = {o.ok, o.v.size(), o.label.size(), o.used}; wr(gp[1], hdr, sizeof hdr); if (!o.v.empty()) wr(gp[1], o.v.data(), o.v.size() * sizeof(double)); if (!o.label.empty()) wr(gp[1], o.label.data(), o.label.size());
+              _exit(0);
+            }
+            close(gp[1]); std::string resp; char buf[4096]; ssize_t k; while ((k = read(gp[0], buf, sizeof buf)) > 0) resp.append(buf, k); close(gp[0]);
+            int st; waitpid(g, &st, 0);
+            if (!WIFEXITED(st) || WEXITSTATUS(st) != 0 || resp.size() < 32) { uint64_t hdr[4] = {2, 0, 0, 0}; resp.assign((const char *)hdr, sizeof hdr); }
+            uint32_t len = (uint32_t)resp.size(); wr(bp[1], &len, sizeof len); wr(bp[1], resp.data(), resp.size());
+          }
+          _exit(0);
+        }
+        close(bp[1]);
+        for (uint32_t ts = 0; ts < 60; ts++) {
+          uint32_t len = 0; std::string resp;
+          if (rd(bp[0], &len, sizeof len) && len >= 32 && len < (1u << 24)) { resp.resize(len); if (!rd(bp[0], &resp[0], len)) resp.clear(); }
+          if (resp.empty()) { uint64_t hdr[4] = {2, 0, 0, 0}; resp.assign((const char *)hdr, sizeof hdr); }
+          memo[std::make_tuple(req[0], req[1], ts)] = resp;
+        }
+        close(bp[0]); int st; waitpid(ini, &st, 0);
+        const std::string & r0 = memo[key]; wr(rs[1], r0.data(), r0.size()); continue;
+      }
       int gp[2]; if (pipe(gp)) _exit(4);
       pid_t g = fork();
       if (g == 0) {
@@ -168,7 +219,7 @@ static const OracleEvent & oracle(int cfg, uint32_t iseed, uint32_t tseed)
 {
   static std::map<std::tuple<int, uint32_t, uint32_t>, OracleEvent> memo; auto key = std::make_tuple(cfg, iseed, tseed);
   auto it = memo.find(key); if (it != memo.end()) return it->second;
-  uint32_t req[3] = {(uint32_t)cfg, iseed, tseed}; wr(g_req_fd, req, sizeof req);
+  uint32_t req[4] = {(uint32_t)cfg, iseed, tseed, (uint32_t)g_oracle_batch}; wr(g_req_fd, req, sizeof req);
   uint64_t hdr[4]; if (!rd(g_rsp_fd, hdr, sizeof hdr)) throw std::runtime_error("oracle server died");
   OracleEvent o; o.ok = hdr[0] == 1; o.v.resize(hdr[1]); o.label.resize(hdr[2]); o.used = hdr[3];
   if (hdr[1]) rd(g_rsp_fd, o.v.data(), hdr[1] * sizeof(double)); if (hdr[2]) rd(g_rsp_fd, &o.label[0], hdr[2]);
@@ -312,6 +363,7 @@ int main(int argc, char ** argv)
     // debugging, each candidate in its own fresh child, so the saved history replays in a fresh process.
     long marathon = a.i("marathon", 3000);
     if (marathon > 0 && cx.rep.failures.empty()) {
+      g_oracle_batch = 1;
       Rng r(mix(mix(seed, 0xC0707), shard)); std::vector<Op> ops;
       // one generator per configuration (slot = configuration index), then shots hopping between them: every shot follows a shot of
       // another nuclide; now and then an instance is reset + re-initialised or re-created
